@@ -12,19 +12,20 @@ LOG=/tmp/validate-$ID.log
 : > "$LOG"
 say() { echo "$@" | tee -a "$LOG"; }
 [ -f "$WT/mutant/patch.diff" ] || { say "no patch.diff"; exit 2; }
-# googletest sources for the test build (the submodule directory is empty in worktrees)
-GT_ADDED=0
-if [ ! -f "$WT/src/test/googletest/CMakeLists.txt" ]; then
-  rm -rf "$WT/src/test/googletest"; cp -r /repo/src/test/googletest "$WT/src/test/googletest"; GT_ADDED=1
-fi
-say "== baseline tests on the patched worktree"
-"$VERIF/tools/baseline_off.sh" "$WT" >> "$LOG" 2>&1; t_rc=$?
+# a FRESH worktree of /repo HEAD with nothing but the delivered patch applied (the agent's own tree is not trusted:
+# worktrees share one git stash and agents have swapped changes through it)
+PATCHED=$(mktemp -d /tmp/patched-$ID.XXXX)
+git -C /repo worktree add -q --detach "$PATCHED" HEAD >> "$LOG" 2>&1
+( cd "$PATCHED" && git apply "$WT/mutant/patch.diff" ) >> "$LOG" 2>&1 || { say "patch does not apply to /repo HEAD"; git -C /repo worktree remove --force "$PATCHED"; exit 1; }
+rm -rf "$PATCHED/src/test/googletest"; cp -r /repo/src/test/googletest "$PATCHED/src/test/googletest"
+say "== baseline tests on a fresh worktree + patch"
+"$VERIF/tools/baseline_off.sh" "$PATCHED" >> "$LOG" 2>&1; t_rc=$?
 grep BASELINE "$LOG" | tail -2
-if [ $GT_ADDED = 1 ]; then rm -rf "$WT/src/test/googletest"; mkdir -p "$WT/src/test/googletest"; fi
 say "tests rc=$t_rc"
-say "== demo on the patched worktree (must fail)"
-( cd "$WT" && timeout 1800 bash mutant/demo.sh "$WT" ) >> "$LOG" 2>&1; d1=$?
+say "== demo on the fresh worktree + patch (must fail)"
+( cd "$WT" && timeout 2400 bash mutant/demo.sh "$PATCHED" ) >> "$LOG" 2>&1; d1=$?
 say "demo(patched) rc=$d1"
+git -C /repo worktree remove --force "$PATCHED" >> "$LOG" 2>&1
 say "== demo on a clean checkout of /repo HEAD (must pass)"
 CLEAN=$(mktemp -d /tmp/clean-$ID.XXXX)
 git -C /repo worktree add -q --detach "$CLEAN" HEAD >> "$LOG" 2>&1
